@@ -76,16 +76,19 @@ def run(ctx):
     rc = oa.reset_calls
     if rep.floor('R2', 'Basis::reset_value calls in the stepping function', len(rc), 1, where(b)):
         r_bbs = {bi for bi, _ in rc}
-        okp, bad = cfg.all_paths_pass_through([oa.none_target], r_bbs, until={hdr})
-        rep.check(okp, 'R2', 'reject-edge-must-undo', where(b, oa.decision_switch_bb),
-                  'every path from the decision\'s None edge (bb%d) to the loop head bb%d or a return passes through '
-                  'Basis::reset_value (bb%s)' % (oa.none_target, hdr, sorted(r_bbs)),
-                  'a path from the reject edge bb%d reaches %s without undoing the proposal' %
-                  (oa.none_target, ['bb%d' % x for x in bad]))
-        reach_some = cfg.reachable_from([oa.some_target], avoid={hdr})
+        # executions on which the decision returned None: every path from the decision to the loop head passes an undo
+        exits = set(cfg.exits())
+        r_none = oa.reach_under(0, oa.after_decision(), avoid=r_bbs)
+        bad = sorted(r_none & ({hdr} | exits))
+        rep.check(not bad, 'R2', 'reject-edge-must-undo', where(b, oa.decision_switch_bb),
+                  'on executions where the decision is None, every path from the decision (bb%d) to the loop head bb%d or a '
+                  'return passes through Basis::reset_value (bb%s)' % (oa.decision_bb, hdr, sorted(r_bbs)),
+                  'a rejected proposal reaches %s without being undone' % ['bb%d' % x for x in bad])
+        reach_some = oa.reach_under(1, oa.after_decision(), avoid={hdr})
         rep.check(not (reach_some & r_bbs), 'R2', 'accept-edge-must-not-undo', where(b, oa.decision_switch_bb),
-                  'no reset_value between the Some edge and the loop head',
-                  'an accepted proposal can be undone: reset_value reachable from the Some edge bb%d' % oa.some_target)
+                  'no reset_value between the decision and the loop head on executions where the decision is Some',
+                  'an accepted proposal can be undone: reset_value reachable when the decision is Some (bb%s)'
+                  % sorted(reach_some & r_bbs))
         # same handle
         c1, i1 = handle_of(b, tr, ss_t['args'][0])
         rep.check(c1 is not None and i1 is not None, 'R2', 'proposal-handle-shape', where(b, ss_bb),
@@ -104,8 +107,8 @@ def run(ctx):
                       'proposal uses container _%s but undo uses container _%s' % (c1, c2))
             same = _same_value(b, cfg, oa.defs, i1, i2, ss_bb, bi, inner)
             rep.check(same[0], 'R2', 'undo-same-index', where(b, bi), same[1], same[1])
-            rep.sample('%s: reject edge bb%d -> reset_value(bb%d) on container _%s index %s — same as set_sampled in bb%d'
-                       % (b.path, oa.none_target, bi, c2, _idx_desc(b, i2), ss_bb))
+            rep.sample('%s: reject path of decision bb%d -> reset_value(bb%d) on container _%s index %s — same as set_sampled in bb%d'
+                       % (b.path, oa.decision_bb, bi, c2, _idx_desc(b, i2), ss_bb))
 
     # ---- R3: the undo value is exact (basis handle) ----------------------------------
     _r3(ctx)
